@@ -109,7 +109,7 @@ def cases(tier, seed):
         for b in G.enum_bodies(n, 3, LEAVES, with_else=(n <= 3)):
             out.append(("x", b))
     nex = len(out)
-    leaves = LEAVES + [('use', 'x'), ('use', 'y'), ('decl', 'x'), ('declu', 'y', 'x'), ('declu', 'x', 'y'), ('declu', 'x', 'x'), ('declu', 'y', 'y'), ('use', 'z'), ('goto', 'return')]
+    leaves = LEAVES + [('set', 'x'), ('set', 'y'), ('set', 'z'), ('use', 'x'), ('use', 'y'), ('decl', 'x'), ('declu', 'y', 'x'), ('declu', 'x', 'y'), ('declu', 'x', 'x'), ('declu', 'y', 'y'), ('use', 'z'), ('goto', 'return')]
     leaves_arr = leaves + [('declarr', 'e', ()), ('declarr', 'f', ('x',)), ('declarr', 'e', ('x', 'y')), ('declarr', 'g', ())]
     for i in range(6000 if tier == "quick" else 150000):
         out.append(("r", G.random_body(rng, 3, rng.randint(1, 30 if i % 5 == 0 else 9), leaves if i % 3 else leaves_arr, 0.12, 0.08)))
@@ -130,8 +130,10 @@ def cases(tier, seed):
 # (an index inside a length `|a[x]|` that the typer folds away must still be looked at)
 USEFORMS = [("len", "|qa[%s as usize]| as i32"), ("idx", "qb[%s as usize]"), ("call", "helper(%s)"), ("neg", "-%s"), ("paren", "((%s))"), ("bin", "1 + %s * 2"),
             ("cast", "(%s as i64) as i32"), ("lenidx2", "|qa[|qa[%s as usize]|]| as i32"), ("arrlit", "|[%s, 1, 2]| as i32"), ("nested", "helper(qb[helper(%s) as usize])")]
-FORM_PRELUDE = "fn helper(a: i32) -> i32\n{\n\treturn: a\n}\n"
-FORM_LOCALS = "\tvar qa: [6][4]i32;\n\tvar qb: [4]i32 = [1, 2, 3, 4];\n"
+# (a module constant used as an array length - in a local's type, in a nested block, in a parameter, in a member - is
+# looked up among the module's constants, whatever scopes are open)
+FORM_PRELUDE = "const LEN: usize = 3;\nstruct Rec\n{\n\tm: [LEN]i32,\n}\nfn helper(a: i32) -> i32\n{\n\treturn: a\n}\nfn helper2(a: &[LEN]i32, b: [][LEN]i32)\n{\n\tvar inner: [LEN][LEN]u8;\n}\n"
+FORM_LOCALS = "\tvar qa: [6][4]i32;\n\tvar qb: [4]i32 = [1, 2, 3, 4];\n\tvar nl: [LEN]i32 = [1, 2, 3];\n\t{\n\t\tvar nl2: [LEN]i32;\n\t\t{\n\t\t\tvar nl3: [2][LEN]i32;\n\t\t}\n\t}\n"
 
 
 def program_form(body, form):
